@@ -38,6 +38,7 @@ def main():
     ap.add_argument("--all-props", action="store_true")
     ap.add_argument("--tier", default="quick")
     ap.add_argument("--repo", default="/repo")
+    ap.add_argument("--seeds", default=None, help="comma separated VERIF_SEED values: additionally record with which of them the target check catches the change")
     args = ap.parse_args()
     if args.imp:
         d = os.path.join(SEEDED, args.name)
@@ -102,6 +103,19 @@ def main():
                             if p == pid:
                                 shutil.copy(rp, os.path.join(d, "replay_found_by_check.json"))
                             os.remove(rp)
+            if args.seeds:
+                per_seed = {}
+                for sd in args.seeds.split(","):
+                    env2 = dict(os.environ)
+                    env2["VERIF_SEED"] = sd
+                    rc = run([os.path.join(VERIF, "bin", "simjd"), "check", pid, "--tier", args.tier, "--repo", sc, "--no-evidence"], env=env2)
+                    per_seed[sd] = rc.returncode
+                    for ln in rc.stdout.splitlines():
+                        if ln.startswith("VIOLATION") and "replay=" in ln and os.path.exists(ln.split("replay=")[1].strip()):
+                            os.remove(ln.split("replay=")[1].strip())
+                ev["target_check_exit_by_verif_seed"] = per_seed
+            elif "target_check_exit_by_verif_seed" in meta.get("evaluation", {}):
+                ev["target_check_exit_by_verif_seed"] = meta["evaluation"]["target_check_exit_by_verif_seed"]
             ev["checks"] = checks
             ev["caught_by_target_check"] = checks[pid]["exit"] == 1
             ev["caught_by"] = sorted(p for p, c in checks.items() if c["exit"] == 1)
@@ -110,7 +124,7 @@ def main():
         meta["evaluation"] = ev
         json.dump(meta, open(meta_p, "w"), indent=1)
         shutil.rmtree(sc, ignore_errors=True)
-        print(f"{name:44s} prop={pid} demo(repo ok={ev.get('demo_passes_on_repo')}, patched fails={ev.get('demo_fails_on_patched')}) tests={ev.get('test_suite_passes_on_patched')} caught_by={ev.get('caught_by')} {(ev.get('checks', {}).get(pid, {}).get('violation') or '')[:140]}", flush=True)
+        print(f"{name:44s} prop={pid} demo(repo ok={ev.get('demo_passes_on_repo')}, patched fails={ev.get('demo_fails_on_patched')}) tests={ev.get('test_suite_passes_on_patched')} caught_by={ev.get('caught_by')} by_seed={ev.get('target_check_exit_by_verif_seed')} {(ev.get('checks', {}).get(pid, {}).get('violation') or '')[:140]}", flush=True)
     shutil.rmtree(SCRATCH, ignore_errors=True)
     return 0 if ok_all else 1
 
